@@ -537,6 +537,15 @@ def run_gram(env, case):
     S = env.Style
     env.clear_caches()
     d = case["d"]
+    if case.get("pre"):
+        # the same definition in other letter cases was parsed earlier in this process (words are case-insensitive, a link target
+        # is not): whatever parse() remembers between calls must not leak from one definition into another
+        for v in (d.upper(), d.lower(), d.swapcase()):
+            if v != d:
+                try:
+                    S.parse(v)
+                except Exception:
+                    pass
     x, o = env.out(lambda: S.parse(d))
     rec = dict(k="gram", toks=env.lex(d), out=o, objs=[], pairs=[], rts=[])
     if x is not None:
@@ -1232,6 +1241,10 @@ def generate(chk, env):
             yield "gram", dict(kind="gram", d=" ".join(ws))
     for d in GRAM_BOUNDARY:
         yield "gram", dict(kind="gram", d=d)
+    for u in URLS:                                    # definitions parsed after their own upper / lower / swapped-case spellings
+        for head in ("", "bold ", "red on blue ", "not italic #0a0B0c "):
+            yield "gram", dict(kind="gram", d=head + "link " + u, pre=True)
+            yield "gram", dict(kind="gram", d="link " + u + " " + head.strip(), pre=True)
     for w in CASE_WORDS:                              # each with every word of the vocabulary, both ways round
         yield "gram", dict(kind="gram", d=w)
         for v in words + CASE_WORDS:
